@@ -43,8 +43,12 @@ func main() {
 		runRuntime(checkC05())
 	case "C06":
 		runRuntime(checkC06())
+	case "C07":
+		runRuntime(checkC07())
 	case "C08":
 		runRuntime(checkC08())
+	case "C14":
+		runRuntime(checkC14())
 	case "gen-sample":
 		// debugging aid: print the DSL of a few specs
 		run := vc.New("sample")
